@@ -389,7 +389,7 @@ pub fn run(rng: &mut Rng, tier: &str, out: &str) -> Report {
     let mut a_doc: Option<Automerge> = None;
 
     // ================= A: ids and cursors across replicas =================
-    let n_universes = if thorough { 24 } else { 4 };
+    let n_universes = if thorough { 16 } else { 4 };
     for ui in 0..n_universes {
         let mut urng = rng.fork();
         let u = match guard(|| build_universe(&mut urng)) {
